@@ -125,6 +125,7 @@ def _cv_case(cond_cls, is_close):
 def _pump_case(cond_cls, head, is_close):
     def build(cx):
         h1, h2 = cx.real("h1"), cx.real("h2")
+        q = cx.real("flow")
         sn = cx.obj(Junction, _name="a", _head=h1)
         en = cx.obj(Junction, _name="b", _head=h2)
         if head:
@@ -134,12 +135,12 @@ def _pump_case(cond_cls, head, is_close):
             pts = curve.fields["_points"] if cx.mode == "symbolic" else curve._points
             ts = cx.obj(types.SimpleNamespace, at=(lambda t: 1.0))
             pump = cx.obj(HeadPump, _link_name="p", _start_node=sn, _end_node=en, _pump_curve_name="c", _curve_reg={"c": curve},
-                          _curve_coeffs=[A, 1.0, 2.0], _coeffs_curve_points=pts, _speed_timeseries=ts)
+                          _curve_coeffs=[A, 1.0, 2.0], _coeffs_curve_points=pts, _speed_timeseries=ts, _flow=q)
             wn = cx.obj(types.SimpleNamespace, sim_time=0)
             cond = cx.obj(cond_cls, _pump=pump, _start_node=sn, _end_node=en, _backtrack=0, _wn=wn)
             hmax = cx.t(A)
         else:
-            pump = cx.obj(PowerPump, _link_name="p", _start_node=sn, _end_node=en)
+            pump = cx.obj(PowerPump, _link_name="p", _start_node=sn, _end_node=en, _flow=q)
             cond = cx.obj(cond_cls, _pump=pump, _start_node=sn, _end_node=en, _backtrack=0)
             hmax = None
         cx.target(cond_cls.evaluate, cond)
@@ -151,6 +152,12 @@ def _pump_case(cond_cls, head, is_close):
             rz = res.t if isinstance(res, SV) else z3.BoolVal(bool(res))
             dh = cx.t(h2) - cx.t(h1)
             over = dh > (hmax + HTOL if hmax is not None else real_val(1e10 + 0.0001524))     # EPANET pumpstatus: head gain above shutoff head -> XHEAD (closed)
+            if head and is_close:
+                # from the property text: a pump never reports reverse flow beyond the flow tolerance - an open head pump that runs backwards is closed
+                # (its head curve is continued below zero flow by an almost flat line, so the head test alone never catches it)
+                backwards = cx.t(q) < -QTOL
+                return [("closes_iff_gain_exceeds_shutoff_head_or_the_pump_runs_backwards", rz == z3.Or(over, backwards)),
+                        ("reverse_flow_beyond_the_tolerance_closes_the_pump", z3.Implies(backwards, rz))]
             return [("closes_iff_gain_exceeds_shutoff_head" if is_close else "opens_iff_gain_within_shutoff_head",
                      rz == (over if is_close else z3.Not(over)))]
         cx.ensure(post)
@@ -213,3 +220,29 @@ def _all_statuses(links):
 CONTRACTS.append(Contract("wntr.network.elements:Pipe/Pump/Valve.status", ["C02", "C05", "C09"],
                           [_status_table_case(c) for c in ("Pipe", "HeadPump", "PowerPump", "PRValve", "PSValve", "FCValve", "TCValve")],
                           interpret_always=(_all_statuses,), note="the full 3 x 3 table of (user status, internal status) for every link class the simulator supports"))
+
+
+# ---------------------------------------------------------------------------- "pumps and check-valve pipes never report reverse flow beyond the flow tolerance"
+
+def _no_reverse_flow_lemma():
+    """Composition: (i) run_sim saves a step only after the post-solve controls ran on the stored state and changed nothing (protocol contract, C16 / C05), so
+    for a link reported open the condition of its closing control is false on the reported state; (ii) the closing conditions of head pumps and check-valve
+    pipes are true whenever the stored flow is below -Qtol (their contracts above); (iii) a closed link reports zero flow (status tables + head-loss builders).
+    Power pumps: the power law (end head - start head) * q = P / (rho g) > 0 together with flows running from high to low head elsewhere excludes q < 0 only as a
+    fact about the network solution - not decided here."""
+    q, qtol = z3.Real("reported_flow"), z3.Real("Qtol")
+    is_open, closing_condition_true, control_changed_something = z3.Bool("reported_open"), z3.Bool("closing_condition_true"), z3.Bool("post_solve_controls_changed_something")
+    return [("an_open_head_pump_or_check_valve_pipe_reports_no_reverse_flow_beyond_the_tolerance",
+             [qtol > 0,
+              z3.Implies(q < -qtol, closing_condition_true),                                       # (ii)
+              z3.Implies(z3.And(is_open, closing_condition_true), control_changed_something),      # the closing control acts on an open link whose condition holds
+              z3.Not(control_changed_something),                                                   # (i)
+              z3.Implies(z3.Not(is_open), q == 0)],                                                # (iii)
+             q >= -qtol)]
+
+
+from pyvc.runner import Lemma
+LEMMAS = [Lemma("C02.no_reverse_flow", ["C02"], _no_reverse_flow_lemma,
+                uses=["_CloseHeadPumpCondition.evaluate#reverse_flow_beyond_the_tolerance_closes_the_pump", "_CloseCVCondition.evaluate#open_cv_never_has_reverse_flow_beyond_Qtol",
+                      "WNTRSimulator.run_sim#saved_state_is_a_fixed_point_of_postsolve_and_feasibility_controls", "WNTRSimulator.run_sim#postsolve_controls_see_a_freshly_stored_solution", "Pipe/Pump/Valve.status", "head-loss builders: closed link => flow = 0"],
+                note="head pumps and check-valve pipes; power pumps not decided (see the lemma's docstring)")]
